@@ -23,7 +23,7 @@ RULE = ("random bodies, polarizations, poses (paths of length 1-3), cut position
         "inside one part / outside all / near cut planes, kept >= 1e-3 sizes away from every surface and cut plane; "
         "non-trivial = more than one part or a change of class; distinct by sha1 of the case")
 ASSUMPTIONS = ["tolerance 1e-6 relative + sum of the class floors of all parts (tol.py)"]
-IDENT = ["cuboid_cuts", "cuboid_mesh", "cuboid_tetra5", "cuboid_tetra6", "cuboid_triangles", "cylinder_full_segment",
+IDENT = ["cuboid_cuts", "cuboid_mesh_parts", "cuboid_mesh", "cuboid_tetra5", "cuboid_tetra6", "cuboid_triangles", "cylinder_full_segment",
          "cylinder_segments", "segment_subsegments", "sphere_dipole", "polygon_circle", "mesh_conversions"]
 
 
@@ -118,7 +118,7 @@ def check_case(ctx, case):
             dim = (10 ** rng.uniform(-0.4, 0.4, 3)).tolist()
             whole = {"cls": "Cuboid", "dimension": dim, "polarization": pol, "position": P, "orientation": Q}
             cuts = None
-            if ident == "cuboid_cuts":
+            if ident in ("cuboid_cuts", "cuboid_mesh_parts"):
                 edges = []
                 for a in range(3):
                     k = int(rng.integers(0, 4))
@@ -128,7 +128,14 @@ def check_case(ctx, case):
                 for i, j, k in itertools.product(*[range(len(e) - 1) for e in edges]):
                     lo = np.array([edges[0][i], edges[1][j], edges[2][k]])
                     hi = np.array([edges[0][i + 1], edges[1][j + 1], edges[2][k + 1]])
-                    parts.append(place({"cls": "Cuboid", "dimension": (hi - lo).tolist(), "polarization": pol}, (lo + hi) / 2, P, Q))
+                    if ident == "cuboid_cuts":
+                        parts.append(place({"cls": "Cuboid", "dimension": (hi - lo).tolist(), "polarization": pol}, (lo + hi) / 2, P, Q))
+                    else:  # every part as a 12-face TriangularMesh, all parts in ONE call (equal face counts)
+                        from vfw.oracles import meshes as M
+
+                        Vb, Fb = M.box((hi - lo).tolist(), ((lo + hi) / 2).tolist())
+                        parts.append({"cls": "TriangularMesh", "vertices": Vb.tolist(), "faces": Fb.tolist(), "polarization": pol,
+                                      "position": P, "orientation": Q})
                 cuts = [(lambda p, a=a, c=c: p[a] - c) for a in range(3) for c in edges[a][1:-1]]
             elif ident == "cuboid_mesh":
                 V = cube_vertices(dim)
@@ -253,7 +260,9 @@ def check_polygon(ctx, case, rng):
             V[-1] = V[0]
             poly = {"cls": "Polyline", "vertices": V.tolist(), "current": I, "position": P, "orientation": Q}
             Hp = fields([poly], obs, "H")
-            errs[n] = np.linalg.norm(Hp - Hc, axis=-1) / np.linalg.norm(Hc, axis=-1)
+            # relative to the local field, but never less than 5 % of the centre field I/(2 r0): next to a zero
+            # of |H| a purely relative error is meaningless
+            errs[n] = np.linalg.norm(Hp - Hc, axis=-1) / np.maximum(np.linalg.norm(Hc, axis=-1), 0.05 * abs(I) / (2 * r0))
     except Exception as e:
         ctx.violation({"kind": "identity-raised", "identity": "polygon_circle", "type": type(e).__name__}, case, exc_info(e))
         return
